@@ -4,7 +4,7 @@ from fractions import Fraction
 from world import amounts, enc_frac, amount_value, enc_f64, dec_f64, f64_next, enc_dec, dec_dec
 
 ID = "C05"
-LEAN_MODULES = ["QtyModel.Props.C05", "QtyModel.Props.Backends", "QtyModel.Props.TieFit", "QtyModel.Props.TieTemplates", "QtyModel.Props.OracleSoundC05", "QtyModel.Props.Bridge"]
+LEAN_MODULES = ["QtyModel.Props.C05", "QtyModel.Props.Backends", "QtyModel.Props.TieFit", "QtyModel.Props.TieTemplates", "QtyModel.Props.OracleSoundC05", "QtyModel.Props.Bridge", "QtyModel.Props.Bridge2"]
 HARNESS_GROUPS = ('g_derived',)
 RULE = ("every derived operator instance x every operand unit pair x amounts built so that the result magnitude lands "
         "exactly on, one ulp/last digit below and above every unit scale of the result type, plus zero, negative and "
